@@ -292,7 +292,17 @@ func genC05(t *rapid.T) c05Case {
 			labels["bad:"+kind] = true
 		}
 	}
-	c.Text = joinPlain(c.Toks)
+	if rapid.Bool().Draw(t, "freeLayout") {
+		var all []model.Tok
+		for _, tk := range c.Toks {
+			all = append(all, tk...)
+		}
+		// for rejected texts every token keeps a separator (its role may depend on the lexer state)
+		c.Text, _ = render(all, genLayout(t, all, true, c.Class == "reject"))
+		labels["layout:free"] = true
+	} else {
+		c.Text = joinPlain(c.Toks)
+	}
 	for l := range labels {
 		c.Labels = append(c.Labels, l)
 	}
